@@ -22,6 +22,9 @@ pub enum LOp {
     Hold(u32),
     Close,
     Destroy,
+    /// n puts of ~120 bytes through the own handle (memtable rotations, flushes and compactions
+    /// are then in flight when the handle is closed)
+    Burst(u32),
 }
 
 #[derive(Serialize, Deserialize, Clone, Debug, PartialEq, Default)]
@@ -35,6 +38,60 @@ pub struct LockPlan {
 pub struct Traced {
     inner: TmpFileSystem,
     calls: Mutex<u64>,
+    /// (seq, task) of every mutating call (create / rename / remove / write through a handle)
+    mutations: Arc<Mutex<Vec<(u64, usize, &'static str)>>>,
+}
+
+/// Writable handle whose writes are scheduling points and are logged as mutations.
+struct TracedFile {
+    inner: Box<dyn RandomAccessFile>,
+    mutations: Arc<Mutex<Vec<(u64, usize, &'static str)>>>,
+}
+
+impl TracedFile {
+    fn note(&self) {
+        rt::sched_point(rt::YieldKind::Fs);
+        let seq = rt::next_seq();
+        self.mutations.lock().unwrap().push((seq, rt::current_task(), "write"));
+    }
+}
+
+impl io::Read for TracedFile {
+    fn read(&mut self, buf: &mut [u8]) -> io::Result<usize> {
+        self.inner.read(buf)
+    }
+}
+
+impl io::Seek for TracedFile {
+    fn seek(&mut self, pos: io::SeekFrom) -> io::Result<u64> {
+        self.inner.seek(pos)
+    }
+}
+
+impl io::Write for TracedFile {
+    fn write(&mut self, buf: &[u8]) -> io::Result<usize> {
+        self.note();
+        self.inner.write(buf)
+    }
+    fn flush(&mut self) -> io::Result<()> {
+        self.inner.flush()
+    }
+}
+
+impl ReadonlyRandomAccessFile for TracedFile {
+    fn read_from(&self, buf: &mut [u8], offset: usize) -> io::Result<usize> {
+        self.inner.read_from(buf, offset)
+    }
+    fn len(&self) -> io::Result<u64> {
+        self.inner.len()
+    }
+}
+
+impl RandomAccessFile for TracedFile {
+    fn append(&mut self, buf: &[u8]) -> io::Result<usize> {
+        self.note();
+        self.inner.append(buf)
+    }
 }
 
 impl Traced {
@@ -42,6 +99,11 @@ impl Traced {
         rt::sched_point(rt::YieldKind::Fs);
         rt::next_seq();
         *self.calls.lock().unwrap() += 1;
+    }
+
+    fn enter_mut(&self, what: &'static str) {
+        self.enter();
+        self.mutations.lock().unwrap().push((rt::current_seq(), rt::current_task(), what));
     }
 }
 
@@ -66,15 +128,16 @@ impl FileSystem for Traced {
         self.inner.open_file(path)
     }
     fn rename(&self, from: &Path, to: &Path) -> io::Result<()> {
-        self.enter();
+        self.enter_mut("rename");
         self.inner.rename(from, to)
     }
     fn create_file(&self, path: &Path, append: bool) -> io::Result<Box<dyn RandomAccessFile>> {
-        self.enter();
-        self.inner.create_file(path, append)
+        self.enter_mut("create_file");
+        let f = self.inner.create_file(path, append)?;
+        Ok(Box::new(TracedFile { inner: f, mutations: Arc::clone(&self.mutations) }))
     }
     fn remove_file(&self, path: &Path) -> io::Result<()> {
-        self.enter();
+        self.enter_mut("remove_file");
         self.inner.remove_file(path)
     }
     fn remove_dir(&self, path: &Path) -> io::Result<()> {
@@ -113,6 +176,9 @@ struct Owners {
     /// (start seq, end seq) of every open / destroy call
     open_calls: Vec<(u64, u64)>,
     destroy_calls: Vec<(u64, u64)>,
+    /// ownership intervals: (task, tasks existing when its open began, open returned at, close began at)
+    intervals: Vec<(usize, u64, u64, u64)>,
+    open_now: std::collections::BTreeMap<usize, (u64, u64)>,
 }
 
 fn with_out<R>(out: &Shared, f: impl FnOnce(&mut RunOutput) -> R) -> R {
@@ -155,10 +221,17 @@ impl Ctx {
     fn try_open(&self, task: usize, round: u32) -> Option<DB> {
         let before: BTreeSet<usize> = self.owners.lock().unwrap().current.clone();
         let o = opts(&self.fs, &self.path, &self.knobs);
+        let existing_tasks = rt::spawned_count();
         let t0 = rt::next_seq();
         let r = call("open", || DB::open(o));
         let t1 = rt::next_seq();
-        self.owners.lock().unwrap().open_calls.push((t0, t1));
+        {
+            let mut g = self.owners.lock().unwrap();
+            g.open_calls.push((t0, t1));
+            if matches!(r, Called::Ok(Ok(_))) {
+                g.open_now.insert(task, (existing_tasks, t1));
+            }
+        }
         match r {
             Called::Ok(Ok(db)) => {
                 let now: BTreeSet<usize> = {
@@ -211,7 +284,14 @@ impl Ctx {
     }
 
     fn close(&self, task: usize, db: DB) {
-        self.owners.lock().unwrap().current.remove(&task);
+        {
+            let mut g = self.owners.lock().unwrap();
+            g.current.remove(&task);
+            if let Some((existing, opened)) = g.open_now.remove(&task) {
+                let now = rt::next_seq();
+                g.intervals.push((task, existing, opened, now));
+            }
+        }
         let _ = call("drop", move || drop(db));
     }
 
@@ -246,21 +326,26 @@ pub fn body(case: &Case, out: &Shared) {
     let tmp = TmpFileSystem::new(None);
     let root = tmp.get_root_path();
     let path = root.join("db");
-    let fs = Arc::new(Traced { inner: tmp, calls: Mutex::new(0) });
+    let fs = Arc::new(Traced { inner: tmp, calls: Mutex::new(0), mutations: Arc::new(Mutex::new(vec![])) });
     let owners = Arc::new(Mutex::new(Owners::default()));
     let knobs = case.plan.opens.first().cloned().unwrap_or_else(|| Knobs::gen(&mut crate::rng::Rng::new(case.run_seed)));
     let n = plan.tasks.len();
     let barrier = Arc::new(shuttle::sync::Barrier::new(n));
     let winners = Arc::new(Mutex::new(0usize));
+    // shuttle task ids of the locker tasks themselves (ids are handed out in spawn order, and a
+    // locker may open the database - spawning a worker - before the next locker is spawned)
+    let locker_ids: Arc<Mutex<BTreeSet<usize>>> = Arc::new(Mutex::new(BTreeSet::new()));
     let mut hs = vec![];
     for (t, ops) in plan.tasks.iter().cloned().enumerate() {
         let ctx = Ctx { fs: fs.clone(), path: path.clone(), knobs: knobs.clone(), owners: owners.clone(), out: Arc::clone(out) };
         let barrier = Arc::clone(&barrier);
         let winners = Arc::clone(&winners);
         let racers = plan.final_racers;
+        let locker_ids2 = Arc::clone(&locker_ids);
         let h = rt::thread::Builder::new()
             .name(format!("locker-{}", t))
             .spawn(move || {
+                locker_ids2.lock().unwrap().insert(rt::current_task());
                 let mut db: Option<DB> = None;
                 let mut round = 0u32;
                 for op in &ops {
@@ -292,6 +377,15 @@ pub fn body(case: &Case, out: &Shared) {
                         LOp::Destroy => {
                             if db.is_none() {
                                 ctx.destroy(t);
+                            }
+                        }
+                        LOp::Burst(k) => {
+                            if let Some(d) = db.as_ref() {
+                                for j in 0..*k {
+                                    let key = format!("burst-{}-{}", t, j % 7).into_bytes();
+                                    let val = vec![b'a' + (j % 26) as u8; 120];
+                                    let _ = call("put", || d.put(WriteOptions::default(), key, val));
+                                }
                             }
                         }
                     }
@@ -330,6 +424,29 @@ pub fn body(case: &Case, out: &Shared) {
     // distinguishing signature suffix so that violations without any destroy/open overlap are
     // never confused with it.
     let raced = g.destroy_calls.iter().any(|d| g.open_calls.iter().any(|o| o.0 < d.1 && d.0 < o.1));
+    // While a task owns the database nobody else's background thread may still be creating,
+    // renaming or removing files in it: a worker thread that existed before the owner's open began
+    // belongs to an earlier instance, which must have finished its background work before it gave
+    // up the lock. (Locker tasks are 1..=n; main is 0; every other id is a worker thread.)
+    if !rt::is_poisoned() {
+        let muts = fs.mutations.lock().unwrap();
+        let lockers = locker_ids.lock().unwrap().clone();
+        let _ = n;
+        if std::env::var_os("RAINSIM_DEBUG_LOCK").is_some() {
+            eprintln!("lockers={:?} intervals={:?} muts={:?}", lockers, g.intervals, &muts[..muts.len().min(60)]);
+        }
+        'outer: for (owner, existing, opened, closed) in g.intervals.iter() {
+            for (seq, task, what) in muts.iter() {
+                let is_worker = *task != 0 && *task != usize::MAX && !lockers.contains(task);
+                // created by a spawn call that happened before this owner's open began
+                let earlier = rt::spawn_ordinal_of(*task).map(|o| o <= *existing).unwrap_or(false);
+                if is_worker && earlier && seq > opened && seq < closed {
+                    push_finding(out, Finding::new(&["C17"], "previous-instance-still-active", what, format!("task {} owned the database from event {} to {}, but worker thread (task {}) of an earlier instance performed {} at event {}: the earlier owner gave up the lock before its background work had finished", owner, opened, closed, task, what, seq), None));
+                    break 'outer;
+                }
+            }
+        }
+    }
     with_out(out, |o| {
         for f in o.findings.iter_mut() {
             if f.concerns("C17") {
@@ -371,16 +488,37 @@ pub fn body(case: &Case, out: &Shared) {
 
 pub fn gen_plan(rng: &mut crate::rng::Rng, thorough: bool) -> LockPlan {
     let n = rng.range(2, if thorough { 4 } else { 3 }) as usize;
+    if rng.chance(2, 5) {
+        // template: one owner closes while its background work is in flight, the others keep
+        // trying to open (the window between "close began" and "close finished")
+        let mut tasks = vec![vec![LOp::Open, LOp::Burst(10 + rng.below(50) as u32), LOp::Close, LOp::Hold(1), LOp::Open]];
+        for _ in 1..n {
+            let tries = rng.range(2, 6) as usize;
+            let mut ops = vec![];
+            for _ in 0..tries {
+                ops.push(LOp::Open);
+                if rng.chance(1, 3) {
+                    ops.push(LOp::Hold(1));
+                }
+            }
+            if rng.chance(1, 2) {
+                ops.push(LOp::Burst(5 + rng.below(20) as u32));
+            }
+            tasks.push(ops);
+        }
+        return LockPlan { tasks, final_racers: rng.range(1, n as u64) as usize };
+    }
     let mut tasks = vec![];
     for _ in 0..n {
         let len = rng.range(2, if thorough { 10 } else { 6 }) as usize;
         let mut ops = vec![];
         for _ in 0..len {
-            ops.push(match rng.weighted(&[40, 25, 25, 10]) {
+            ops.push(match rng.weighted(&[38, 20, 22, 8, 12]) {
                 0 => LOp::Open,
                 1 => LOp::Hold(1 + rng.below(3) as u32),
                 2 => LOp::Close,
-                _ => LOp::Destroy,
+                3 => LOp::Destroy,
+                _ => LOp::Burst(8 + rng.below(40) as u32),
             });
         }
         tasks.push(ops);
